@@ -2,6 +2,12 @@ NOTES = ("All checks: ./check <ID> --tier quick|thorough, VERIF_SEED respected, 
          "fix: commits in /repo are listed in known_findings.json as fixed entries.")
 NOT_APPLICABLE = {}
 CHECKS = {
+ "C15": {
+  "level": "fault_enumeration",
+  "technique": "fault injection with exhaustive enumeration of every recorded boundary call x applicable fault kind per Hypothesis-generated project (trace run, then one faulted real pytest session per point)",
+  "text": "For each generated project a trace run records all calls at 10 boundaries (black, format-command, read, ensure_import, persist, rename, open, write, replace, new_code) during tests and session finish; every (call index, fault kind) pair is then injected in its own session from a pristine copy. Files must be previous or complete new content (or, after formatter faults, correct unformatted code), always parse, never be a prefix; formatter failures must be reported; after pruning -new files every external reference must resolve. Fault enumeration: exhaustive over the recorded trace of each project.",
+  "note": "faults are exceptions / bad return values at python call boundaries and prefix writes, injected by a harness-side pytest plugin; real process kills and kernel-level atomicity are not modelled",
+ },
  "C13": {
   "technique": "Hypothesis model-based testing of generated histories (edit / add / remove / unreference / session steps as one shrinkable value) against a reference map of the storage, each session a real pytest process; plus a Hypothesis arm on the storage lookup API",
   "text": "Histories of 3-10 steps over a project (hash-length 1..64, three storage-dir settings, two files, colliding hash prefixes) are executed with real sessions (category subsets, report, review with answers, single-file sessions); after every session the storage listing and the references in the files are checked against five invariants (name = sha256 of content, persisted only with a written reference, no stale -new file, removal only by approved trim of an unreferenced file, a written reference resolves to one persisted file with the outsourced bytes). The API arm checks that 0 or >1 prefix matches raise HashError. Exploration.",
